@@ -351,7 +351,8 @@ def task_targets():
 
 
 def build(tier):
-    targets = reduce_targets() + acc_targets() + iter_targets() + access_targets() + vgrad_targets() + task_targets()
+    import ctor_spec
+    targets = reduce_targets() + acc_targets() + iter_targets() + access_targets() + vgrad_targets() + task_targets() + ctor_spec.targets()
     import reg_smt
     bounded, fns = [], []
     for n in (1, 2, 3):
